@@ -925,6 +925,7 @@ func (rp *replayer) evalPost(fn *ssa.Function, cvs []*CV, out string) (failed []
 		args[i] = rp.toVal(e, st, cvs[i])
 		vars[paramName(p, i)] = sv{V: args[i], T: p.Type()}
 	}
+	bindPositional(vars, fn, args)
 	env := &SpecEnv{e: e, st: st, vars: vars, pkg: rp.pkg, where: "replay"}
 	for _, g := range rp.ct.Ghosts {
 		env.vars[g.Name] = e.ghostVal(st, g)
